@@ -77,6 +77,15 @@ def search_c04(ctx, broken):
     check.run_component(ctx, "iter")
 
 
+def search_c01(ctx, broken):
+    """a C01 obligation is broken: first the end-to-end component in search mode (more reply-flood runs across
+    chunk boundaries), and only if that finds nothing the (slow) iterator search of C04"""
+    import check
+    check.run_component(ctx, "e2e")
+    if not any(f for _, f, _ in ctx.violations):
+        check.run_component(ctx, "iter")
+
+
 def deep_iterstep(ctx, cf):
     """an `iterstep` case on which Next differs from the model: run one COMPLETE turn of the real iterator
     from that state (startI = I, limit = min(P-1, 2^32)) and count; a count != limit or a repeated value is
@@ -240,7 +249,7 @@ PROPS = {
     "C01": {
         "modules": ["SxVerif.Props.C01"],
         "components": ["gen", "iter", "e2e"],
-        "search": search_c04,
+        "search": search_c01,
         "trusted_base": [
             "modelled, not verified: generators as the list they send before closing (channel plumbing is M-conc, C07/C08); cidranger as list membership; net.ParseIP / easyjson / bufio as a line classifier; os.Stdin through the buffering opener as a constant file",
             "chunk loop of startPortScanEngine tied by sxfacts (loop header, body statements and the empty-ranges branch are matched textually; any other shape is a translator problem that breaks Props/C01.translator_clean)",
